@@ -60,6 +60,50 @@ def register(op):
         dep.clear_memory()
         return res
 
+    @op("legacy_history")
+    def _(a):
+        """a history of creation requests [(seq, struct, name|None)] through the legacy and the current object model:
+        per step the outcome class (new / dup of step k / err) of both; the property says they agree"""
+        import gc
+        from dsdobjects import base_classes as bc
+        from dsdobjects.singleton import clear_singletons, SingletonError
+        dep.clear_memory()
+        clear_singletons(bc.ComplexS)
+        bc.ComplexS.ID = 1
+        if hasattr(dep.DSD_Complex, "ID"):
+            dep.DSD_Complex.ID = 1
+        lobjs, cobjs, out = [], [], []
+        def index(objs, o):
+            for k, x in enumerate(objs):
+                if x is o:
+                    return k
+            return -1
+        for seq, struct, name in a:
+            try:
+                lo = dep.DSD_Complex(list(seq), list(struct), name=name) if name is not None else dep.DSD_Complex(list(seq), list(struct))
+                l = ["new", len(lobjs)]
+                lobjs.append(lo)
+            except dep.DSDDuplicationError as e:
+                l = ["dup", index(lobjs, e.existing)]
+                lobjs.append(None)
+            except dep.DSDObjectsError:
+                l = ["err", -1]
+                lobjs.append(None)
+            try:
+                co = bc.ComplexS(list(seq), list(struct), name=name) if name is not None else bc.ComplexS(list(seq), list(struct))
+                k = index(cobjs, co)
+                c = ["dup", k] if k >= 0 else ["new", len(cobjs)]
+                cobjs.append(co if k < 0 else None)
+            except SingletonError as e:
+                c = ["err", -1] if e.existing is None else ["dup", index(cobjs, e.existing)]
+                cobjs.append(None)
+            out.append([l, c])
+        del lobjs, cobjs
+        dep.clear_memory()
+        clear_singletons(bc.ComplexS)
+        gc.collect()
+        return out
+
     @op("legacy_split")
     def _(a):
         seq, struct = a
